@@ -63,7 +63,10 @@ const (
 	xpRecv    = "exporter"
 )
 
-var xpRoots = []string{"exportBus"}
+var xpRoots = []string{"exportBus", "exportAttributeAssignment"}
+
+// free functions of the file that are translated when a translated function calls them
+var xpFreeFuncs = map[string]bool{"exportsAsHex": true}
 
 // ---------------------------------------------------------------- spec tables
 
@@ -117,6 +120,19 @@ var xpProj = map[string][2]string{
 	"Msg senderNodeInt":              {"%", "MsgSender"},
 	"MsgSender node":                 {"%", "MsgSenderNode"},
 	"MsgSenderNode name":             {"%.senderName", ""},
+	"AttrAss attribute":              {"%.att", "Attr"},
+	"AttrAss value":                  {"%.value", "AnyVal"},
+	"Attr Name()":                    {"(Attr.name %)", ""},
+	"StrAttr defValue":               {"%.defValue", ""},
+	"IntAttr defValue":               {"%.defValue", ""},
+	"IntAttr min":                    {"%.min", ""},
+	"IntAttr max":                    {"%.max", ""},
+	"IntAttr isHexFormat":            {"%.isHexFormat", ""},
+	"FloatAttr defValue":             {"%.defValue", ""},
+	"FloatAttr min":                  {"%.min", ""},
+	"FloatAttr max":                  {"%.max", ""},
+	"EnumAttr defValue":              {"%.defValue", ""},
+	"EnumAttr Values()":              {"%.values", ""},
 	"Bus desc":                       {"%.desc", ""},
 	"Bus NodeInterfaces()":           {"%.nodeInterfaces", "[]NodeInt"},
 	"NodeInt node":                   {"%", "NodeIntNode"},
@@ -138,6 +154,12 @@ var xpModelTypes = map[string][2]string{
 	"*Message":           {"Msg", "Msg"},
 	"*NodeInterface":     {"NodeInt", "NodeInt"}, // an element of Receivers() is a "Recv" by its path
 	"*Bus":               {"Bus", "Bus"},
+	"*AttributeAssignment": {"AttrAss", "AttrAssignment"},
+	"Attribute":          {"Attr", "Attr"},
+	"*StringAttribute":   {"StrAttr", "StrAttr"},
+	"*IntegerAttribute":  {"IntAttr", "IntAttr"},
+	"*FloatAttribute":    {"FloatAttr", "FloatAttr"},
+	"*EnumAttribute":     {"EnumAttr", "EnumAttr"},
 }
 
 // kinds of slices of model objects ↦ element kind
@@ -151,6 +173,14 @@ var xpKinds = map[string][3]string{
 	"SignalKindMultiplexer": {"ToMultiplexer", "mux", "MuxSig"},
 }
 
+// the four attribute types: constant ↦ (conversion method, constructor, kind of the bound variable)
+var xpAttrKinds = map[string][3]string{
+	"AttributeTypeString":  {"ToString", "string", "StrAttr"},
+	"AttributeTypeInteger": {"ToInteger", "integer", "IntAttr"},
+	"AttributeTypeFloat":   {"ToFloat", "float", "FloatAttr"},
+	"AttributeTypeEnum":    {"ToEnum", "enum", "EnumAttr"},
+}
+
 // "GoType LeanType GoConst=ctor ..." (package acmelib or dbc); every constant of the type must be listed
 var xpEnumTable = []string{
 	"MessageByteOrder MsgByteOrder MessageByteOrderLittleEndian=littleEndian MessageByteOrderBigEndian=bigEndian",
@@ -158,6 +188,11 @@ var xpEnumTable = []string{
 	"dbc.SignalByteOrder Acme.Dbc.ByteOrder SignalLittleEndian=littleEndian SignalBigEndian=bigEndian",
 	"dbc.SignalValueType Acme.Dbc.ValueType SignalUnsigned=unsigned SignalSigned=signed",
 	"dbc.ValueEncodingKind Acme.Dbc.ValueEncodingKind ValueEncodingSignal=signal ValueEncodingEnvVar=envVar",
+	"AttributeType AttrType AttributeTypeString=string AttributeTypeInteger=integer AttributeTypeFloat=float AttributeTypeEnum=enum",
+	"dbc.AttributeKind Acme.Dbc.AttributeKind AttributeGeneral=general AttributeNode=node AttributeMessage=message AttributeSignal=signal AttributeEnvVar=envVar",
+	"dbc.AttributeType Acme.Dbc.AttributeType AttributeInt=int AttributeFloat=float AttributeString=string AttributeEnum=enum AttributeHex=hex",
+	"dbc.AttributeDefaultType Acme.Dbc.AttrValType AttributeDefaultInt=int AttributeDefaultString=string AttributeDefaultFloat=float AttributeDefaultHex=hex",
+	"dbc.AttributeValueType Acme.Dbc.AttrValType AttributeValueInt=int AttributeValueString=string AttributeValueFloat=float AttributeValueHex=hex",
 	"dbc.CommentKind Acme.Dbc.CommentKind CommentGeneral=general CommentNode=node CommentMessage=message CommentSignal=signal CommentEnvVar=envVar",
 }
 
@@ -171,12 +206,19 @@ var xpStructTable = []string{
 	"ExtendedMux Acme.Dbc.ExtendedMux MessageID=messageID MultiplexorName=multiplexorName MultiplexedName=multiplexedName Ranges=ranges",
 	"ExtendedMuxRange Acme.Dbc.ExtendedMuxRange From=from_ To=to",
 	"Nodes DbcNodes Names=names",
+	"Attribute DbcAttribute Kind=kind Type=type Name=name MinInt=minInt MaxInt=maxInt MinHex=minHex MaxHex=maxHex MinFloat=minFloat MaxFloat=maxFloat EnumValues=enumValues",
+	"AttributeDefault DbcAttributeDefault Type=type AttributeName=attributeName ValueString=valueString ValueInt=valueInt ValueHex=valueHex ValueFloat=valueFloat",
+	"AttributeValue DbcAttributeValue AttributeKind=attributeKind Type=type AttributeName=attributeName NodeName=nodeName MessageID=messageID SignalName=signalName EnvVarName=envVarName ValueString=valueString ValueInt=valueInt ValueHex=valueHex ValueFloat=valueFloat",
 	"ValueTable Acme.Dbc.ValueTable Name=name Values=values",
 }
 
 // e.dbcFile.<Field> ↦ field of St
 var xpFileFields = map[string]string{"Comments": "comments", "ValueEncodings": "valueEncodings",
-	"ExtendedMuxes": "extendedMuxes", "Messages": "messages", "ValueTables": "valueTables"}
+	"ExtendedMuxes": "extendedMuxes", "Messages": "messages", "ValueTables": "valueTables",
+	"Attributes": "attributes", "AttributeDefaults": "attributeDefaults"}
+
+// e.<field> (a map used as a set of names) ↦ field of St
+var xpRecvMaps = map[string]bool{"sigEnums": true, "attNames": true, "nodeAttNames": true, "msgAttNames": true, "sigAttNames": true}
 
 // e.dbcFile.<Field> = p (a pointer section, assigned once) ↦ field of St (an Option)
 var xpFilePtrFields = map[string]string{"Nodes": "nodes"}
@@ -189,7 +231,7 @@ var xpSliceCalls = map[string]bool{"exportAttributeAssignment": true}
 
 var xpReserved = map[string]string{"from": "from_", "to": "to_", "end": "end_", "at": "at_", "at_": "", "then": "then_",
 	"fun": "fun_", "match": "match_", "with": "with_", "do": "do_", "in": "in_", "open": "open_", "let": "let_",
-	"have": "have_", "show": "show_", "st": "", "pm": "", "clr": "", "rest_": "", "r_": "", "l_": "", "x_": "", "h_": ""}
+	"have": "have_", "show": "show_", "st": "", "pm": "", "clr": "", "rest_": "", "r_": "", "l_": "", "x_": "", "h_": "", "v_": ""}
 
 // ---------------------------------------------------------------- translator state
 
@@ -253,6 +295,7 @@ type xptr struct {
 	taint   map[types.Object]bool
 	calls   map[string]bool
 	msgPar  string
+	hoisted map[*ast.TypeAssertExpr]string
 }
 
 func (t *xptr) fail(n ast.Node, format string, a ...any) {
@@ -507,6 +550,11 @@ func (t *xptr) zero(ty types.Type, at ast.Node) string {
 
 // recvCall: `e.m(args)` with e the receiver of the current method
 func (t *xptr) recvCall(c *ast.CallExpr) (string, bool) {
+	if id, ok := c.Fun.(*ast.Ident); ok && xpFreeFuncs[id.Name] {
+		if f, ok := t.info.Uses[id].(*types.Func); ok && f.Pkg() == t.root {
+			return id.Name, true
+		}
+	}
 	if s, ok := c.Fun.(*ast.SelectorExpr); ok {
 		if id, ok := s.X.(*ast.Ident); ok && t.isRecv(id) {
 			return s.Sel.Name, true
@@ -550,6 +598,9 @@ func xpRootIdent(e ast.Expr) *ast.Ident {
 func (t *xptr) prepass() {
 	decls := map[string]*ast.FuncDecl{}
 	for _, d := range t.file.Decls {
+		if fd, ok := d.(*ast.FuncDecl); ok && fd.Body != nil && fd.Recv == nil && xpFreeFuncs[fd.Name.Name] {
+			decls[fd.Name.Name] = fd
+		}
 		if fd, ok := d.(*ast.FuncDecl); ok && fd.Body != nil && fd.Recv != nil && len(fd.Recv.List) == 1 {
 			if st, ok := fd.Recv.List[0].Type.(*ast.StarExpr); ok {
 				if id, ok := st.X.(*ast.Ident); ok && id.Name == xpRecv {
@@ -605,6 +656,8 @@ func (t *xptr) prepass() {
 						}
 					}
 				}
+			case *ast.TypeAssertExpr:
+				s.mayPanic = true
 			case *ast.IndexExpr:
 				if _, ok := types.Unalias(t.info.TypeOf(y.X)).Underlying().(*types.Slice); ok {
 					s.mayPanic = true // refined in function(): the make/range idiom is recognised first
